@@ -3,7 +3,7 @@
     Model: AnalysisDefs.v (faithful transcription of the classification core of src/analyser.cpp);
     executable specification: AnalysisSpec.v (the same predicate is evaluated on the real AnalyserModel). *)
 From Coq Require Import List Bool Arith Permutation.
-From LC Require Import AnalysisDefs AnalysisSpec AnalysisProofs AnalysisWfProofs AnalysisOwnProofs AnalysisRenameProofs AnalysisConfluenceProofs AnalysisDefinerProofs AnalysisDepProofs AnalysisTopoProofs AnalysisEqVarsProofs AnalysisWitness AnalysisOrderWitness.
+From LC Require Import AnalysisDefs AnalysisSpec AnalysisProofs AnalysisWfProofs AnalysisOwnProofs AnalysisRenameProofs AnalysisConfluenceProofs AnalysisDefinerProofs AnalysisDepProofs AnalysisTopoProofs AnalysisEqVarsProofs AnalysisWitness AnalysisOrderWitness AnalysisScopeProofs.
 Import ListNotations.
 
 (** ** Termination of the do/while over mInternalEquations *)
@@ -253,7 +253,34 @@ Theorem C05_first_pass_completeness_order_dependent :
 Proof. exact AnalysisOrderWitness.held_witness. Qed.
 Print Assumptions C05_first_pass_completeness_order_dependent.
 
-(* NOT PROVED (classification_perm_invariant_partial, the _partial of the refutation above): if the first pass alone
+(** classification_perm_invariant_partial on a small scope, checked by the kernel (exhaustive, vm_compute): for every
+    one-component system with 3 variables (each with or without an initial value) and at most 3 equations of the
+    shapes a = c, a = b + c, a + b = c, a * a = c (scope_k 3 3: 6528 systems), if the analysis solves the system
+    without NLA detection (valid, type ALGEBRAIC - wider than "first pass complete": whatever the passes did), every
+    re-ordering of the equations (perms enumerates exactly permutations: AnalysisScopeProofs.perms_perm) has the
+    same model type and the same role for every class.  The four refuting findings lie outside: they need an NLA /
+    OVERCONSTRAINED outcome, two components, or two equivalent variables in one component. *)
+Theorem C05_classification_perm_invariant_small_scope : forall ini qs,
+  In (ini, qs) (scope_k 3 3) -> solved_directly (sys_of ini qs) = true ->
+  forall qs', In qs' (perms qs) ->
+  same_cls (classification_of (sys_of ini qs)) (classification_of (sys_of ini qs')) = true.
+Proof. exact AnalysisScopeProofs.small_scope_perm_invariant. Qed.
+Print Assumptions C05_classification_perm_invariant_small_scope.
+
+(** non-vacuity: 50 systems of the scope are solved without NLA detection; x = c, y = x + c, z = y + c is one, and its
+    reversal is among the re-orderings and has a differently ordered (equal as a set) classification. *)
+Example C05_small_scope_nonvacuous :
+  scope_count (scope_k 3 3) = (6528, 50) /\
+  let qs := [mkEqn 1001 (EVar 0) ECn; mkEqn 1002 (EVar 1) (EOp (EVar 0) ECn); mkEqn 1003 (EVar 2) (EOp (EVar 1) ECn)] in
+  let qs' := [mkEqn 1003 (EVar 2) (EOp (EVar 1) ECn); mkEqn 1002 (EVar 1) (EOp (EVar 0) ECn); mkEqn 1001 (EVar 0) ECn] in
+  existsb (fun iq => match iq with (ini, q) => forallb2_eqn q qs && forallb (fun i => match i with INone => true | _ => false end) ini end) (scope_k 3 3) = true /\
+  solved_directly (sys_of [INone; INone; INone] qs) = true /\
+  existsb (forallb2_eqn qs') (perms qs) = true /\
+  classification_of (sys_of [INone; INone; INone] qs) <> classification_of (sys_of [INone; INone; INone] qs').
+Proof. exact AnalysisScopeProofs.scope_nonvacuous. Qed.
+Print Assumptions C05_small_scope_nonvacuous.
+
+(* NOT PROVED IN GENERAL (classification_perm_invariant_partial, the _partial of the refutation above; proved only on the small scope above): if the first pass alone
    gives a type to every equation (first_pass_complete s = Some true) then every re-ordering of the equations has
    the same classification UP TO THE ORDER OF THE VARIABLE LIST (same model type, same role for every class).
    Why it is not a corollary of C05_pass1_confluent: (i) analyseComponent creates the internal variables in the
